@@ -121,6 +121,16 @@ def corruptions(seeds, shape_kwargs):
     e2 = dict(ev, pubkey=ev["pubkey"].upper())
     ok = resign_for_relay(e2, key)
     yield "pubkey=upper-case (re-signed)", e2, tk, ok
+    # hex followed / preceded by white space (bytes.fromhex skips blanks; a "$" in a pattern matches before "\n")
+    for lab, fn in (("trailing-newline", lambda x: x + "\n"), ("leading-space", lambda x: " " + x), ("inner-space", lambda x: x[:32] + " " + x[32:])):
+        ev, key, tk = base()
+        e2 = dict(ev, pubkey=fn(ev["pubkey"]))
+        ok = resign_for_relay(e2, key)
+        yield "pubkey=hex-with-blank/%s (re-signed)" % lab, e2, tk, ok
+        ev, key, tk = base()
+        yield "sig=hex-with-blank/%s" % lab, dict(ev, sig=fn(ev["sig"])), tk, False
+        ev, key, tk = base()
+        yield "id=hex-with-blank/%s" % lab, dict(ev, id=fn(ev["id"])), tk, False
     ev, key, tk = base()
     yield "pubkey=other-key", dict(ev, pubkey=seeds.keys[(seeds.keys.index(key) + 1) % len(seeds.keys)].pk), tk, False
     # the relay's own service key as claimed author (its pubkey is public): forged signatures
